@@ -6,7 +6,7 @@ META = {
     "level": "proof",
     "technique": "Coq proofs by induction over a Gallina transcription of CompilePipeline (__call_tapes routing for arbitrary transforms; container/marker operations) + vm_compute correspondence against the real CompilePipeline on term-algebra transforms and random edit histories",
     "design_ref": "DESIGN.md §3 C23",
-    "text": "Props/C23.v: pipeline_is_manual_composition proves, for ALL pipelines of arbitrary transforms (any fan-out, incl. 0), all batches and all executors, that post-processing the executed output batch equals applying the transforms one after another by hand to each input tape, in input order (induction on the pipeline + firstn/skipn slice lemma); container_refines_list_* theorems prove that append, +=, +, radd, *, insert (index in range), pop (any valid index, incl. negative, incl. removal of the expand_transform partner), int/slice indexing (step 1, normalised bounds) and remove (no expand partners) act on the underlying list exactly like the list operations, that len/iteration are those of the list and that at most one terminal transform is ever present; markers_* theorems prove for append, +, +=, *, pop, remove-free slicing and in-range insert of a transform without expand_transform that every marker stays attached to the same boundary (same prefix or same suffix of transforms). The executable model is evaluated inside Coq on the same random pipelines/batches (free term algebra for tapes and results, so any routing error changes the term) and the same random edit histories as the real CompilePipeline; every execution tape, every post-processed result, every container state, marker map, returned transform and raised/not-raised flag is compared. Independently the by-hand composition is computed on the implementation side through the public single-tape API and compared with the pipeline result.",
+    "text": "Props/C23.v: pipeline_is_manual_composition proves, for ALL pipelines of arbitrary transforms (any fan-out, incl. 0), all batches and all executors, that post-processing the executed output batch equals applying the transforms one after another by hand to each input tape, in input order (induction on the pipeline + firstn/skipn slice lemma); container_refines_list_* theorems prove that append, +=, +, radd, *, insert (index in range), pop (any valid index, incl. negative, incl. removal of the expand_transform partner), int/slice indexing (step 1, normalised bounds) and remove (no expand partners) act on the underlying list exactly like the list operations, that len/iteration are those of the list and that at most one terminal transform is ever present; markers_* theorems prove for append, +, +=, * (n>=1), pop (single and expand-pair), step-1 slicing and in-range insert of a transform without expand_transform that every marker stays attached to the same boundary (same prefix or same suffix of transforms). The executable model is evaluated inside Coq on the same random pipelines/batches (free term algebra for tapes and results, so any routing error changes the term) and the same random edit histories as the real CompilePipeline; every execution tape, every post-processed result, every container state, marker map, returned transform and raised/not-raised flag is compared. Independently the by-hand composition is computed on the implementation side through the public single-tape API and compared with the pipeline result.",
     "note": "Modelled, not verified: the model is a hand transcription of compile_pipeline.py tied to /repo only by the correspondence run. Classical cotransforms / cotransform_cache (needs a QNode) and QNode-level application (__call_generic) are not modelled; transforms in the tie are synthetic (term building) rather than PennyLane's numerical transforms; exception TYPES are not compared; extend(), __contains__, __eq__, __str__/__repr__ are not modelled. Marker arithmetic is transcribed as written, including behaviour the documentation contradicts: those cases are not covered by a marker theorem and are reported from fixed corpus cases under finding:* keys (insert with a negative index, insert of a transform with an expand_transform, transform + pipeline, insert with an out-of-range index and an expand_transform). `pipeline * n` keeping markers un-duplicated at their level is documented behaviour; a failed insert/+= (TransformError) still mutating the markers is unspecified and is transcribed without alarm.",
     "assumptions": ["cotransform_cache is None (no classical cotransform post-processing)",
                     "transforms are pure functions of the tape (same tape -> same tapes and post-processing)",
